@@ -205,7 +205,7 @@ PLAN_C01 = {
     "mc": [
         dict(what="laws, one table, <=2 rows, every unary step", fams=UNARY, rows=2, steps=1, level=1, **T1),
         dict(what="laws, two tables, <=1 row, join/concat", fams=["stack", "binary"], rows=1, steps=2, level=1, **T12),
-        dict(what="laws, one table, <=3 rows, every unary step", fams=UNARY, rows=3, steps=1, level=1, tier=("thorough",), **T1),
+        dict(what="laws, one table, <=3 rows, every unary step", fams=UNARY, rows=3, steps=1, level=1, tier=("thorough",), timeout=3000, **T1),
     ],
     "emit": [micro(2, 8), micro(3, 60, ("thorough",)), MICRO_FORK, MICRO_OW,
         dict(what="all 1-step pipelines over all tables with <=1 row", fams=UNARY, rows=1, steps=1, level=1, **T1),
